@@ -29,7 +29,8 @@ FACTMAP = {
             "order_Program_restoreTerminalState", "body_Program_initCancelReader", "order_standardRenderer_stop",
             "order_standardRenderer_start", "body_Program_readLoop", "body_Program_waitForReadLoop", "body_standardRenderer_halt",
             "body_Exec", "body_ExecProcess", "body_wrapExecCommand", "body_osExecCommand_SetStdin", "body_osExecCommand_SetStdout",
-            "body_osExecCommand_SetStderr"],   # what is handed to os/exec: nothing but the command and the program's stdio
+            "body_osExecCommand_SetStderr",
+            "body_Program_suspend", "el_case_SuspendMsg"],   # what is handed to os/exec: nothing but the command and the program's stdio
     "C18": ["body_Program_handleSignals", "body_Program_handleResize", "body_Program_listenForResize", "body_Program_checkResize",
             "body_Program_initInput",   # ttyOutput (whether size reporting exists at all) is decided there
             "el_case_windowSizeMsg", "order_Program_ReleaseTerminal", "order_Program_RestoreTerminal", "order_Program_Run"],
